@@ -7,6 +7,7 @@ package virtual
 // a dead file fail cleanly.
 
 import (
+	remoteexecution "github.com/bazelbuild/remote-apis/build/bazel/remote/execution/v2"
 	"syscall"
 	"context"
 
@@ -31,6 +32,9 @@ func (f *verifC16_poolFile) Close() error { f.closed++; return nil }
 func (f *verifC16_poolFile) Truncate(size int64) error {
 	rt.Assert(f.closed == 0, "released storage is never touched")
 	f.truncates++
+	if f.failTruncate {
+		return syscall.EIO
+	}
 	f.content++
 	return nil
 }
@@ -108,7 +112,7 @@ func verifC16_check(f *fileBackedFile, pf *verifC16_poolFile, g verifC16_ghost, 
 }
 
 func verifHarness_C16_ReferenceCounting() {
-	rt.MustCover("rc:link", "rc:unlink-last", "rc:unlink", "rc:open", "rc:close-last", "rc:close", "rc:frozen-open", "rc:frozen-close-last", "rc:write", "rc:short-write", "rc:truncate", "rc:dead-link", "rc:dead-open", "rc:dead-write", "rc:dead-truncate", "rc:dead-allocate", "rc:dead-read", "rc:dead-seek")
+	rt.MustCover("rc:link", "rc:unlink-last", "rc:unlink", "rc:open", "rc:open-truncate-failed", "rc:close-last", "rc:close", "rc:frozen-open", "rc:frozen-close-last", "rc:write", "rc:short-write", "rc:truncate", "rc:dead-link", "rc:dead-open", "rc:dead-write", "rc:dead-truncate", "rc:dead-allocate", "rc:dead-read", "rc:dead-seek", "rc:dead-stat")
 	ctx := context.Background()
 	f, pf, g := verifC16_arbitrary()
 	masks := []ShareMask{ShareMaskRead, ShareMaskWrite, ShareMaskRead | ShareMaskWrite}
@@ -135,6 +139,14 @@ func verifHarness_C16_ReferenceCounting() {
 			rt.Assume(g.frozen == 0) // would wait for the frozen readers (covered by the concurrent harness)
 		}
 		var out Attributes
+		if trunc && rt.NondetBool("the pool fails to truncate") {
+			// a failed open takes no reference: nobody will ever close it
+			rt.Cover("rc:open-truncate-failed")
+			pf.failTruncate = true
+			rt.Assert(f.VirtualOpenSelf(ctx, m, &OpenExistingOptions{Truncate: true}, 0, &out) != StatusOK, "an open whose truncation failed is refused")
+			verifC16_check(f, pf, g, false)
+			break
+		}
 		rt.Cover("rc:open")
 		rt.Assert(f.VirtualOpenSelf(ctx, m, &OpenExistingOptions{Truncate: trunc}, 0, &out) == StatusOK, "opening a live file succeeds")
 		switch m {
@@ -211,7 +223,13 @@ func verifHarness_C16_ReferenceCounting() {
 		f.Unlink()
 		g.links = 0
 		verifC16_check(f, pf, g, true)
-		switch rt.Choose(7) {
+		switch rt.Choose(8) {
+		case 7: // BatchStat of the Bazel Output Service reaching the file through a stale reference
+			rt.Cover("rc:dead-stat")
+			df := digest.MustNewFunction("", remoteexecution.DigestFunction_SHA256)
+			st := &ApplyGetBazelOutputServiceStat{DigestFunction: &df}
+			rt.Assert(f.VirtualApply(st), "the stat request is understood")
+			rt.Assert(st.Err != nil, "a stat of a dead file fails")
 		case 0:
 			rt.Cover("rc:dead-link")
 			rt.Assert(f.Link() == StatusErrStale, "linking a dead file fails with ESTALE")
